@@ -721,6 +721,18 @@ def r30(ctx: Ctx) -> RuleReport:
                                                           f'e.g. {w_!r}: a reference written `b{w_}` is looked up with its alignment still attached, is not found in the map and '
                                                           f'keeps its old name while the node is renamed - the edge silently becomes a dangling attribute')
                                             return rep
+                            # the reference is taken from the WRITTEN FORM of the target: str(tgt).partition('~') makes a number look like a variable of the same spelling
+                            conv_ = None
+                            for m in ast.walk(loop):
+                                if isinstance(m, ast.Assign) and isinstance(m.value, ast.Call) and isinstance(m.value.func, ast.Attribute) and m.value.func.attr in ('partition', 'split') \
+                                        and isinstance(m.value.func.value, ast.Call) and norm(m.value.func.value.func) in ('str', 'repr', 'format') and m.value.func.value.args \
+                                        and norm(m.value.func.value.args[0]) == l_tgt:
+                                    conv_ = m
+                            if conv_ is not None and not any(f.replace(' ', '') == f'isinstance({l_tgt},str)' and pol for f, pol in facts):
+                                rep.violation(f'{fi.fq}: only references are rewritten - a constant that is not a string is left as it is', fi.loc(conv_),
+                                              f'`{norm(conv_)[:60]}` takes the written form of ANY target (there is no isinstance({l_tgt}, str) test on this path): the number 2 is looked up '
+                                              f'as "2", and when a variable is spelled that way the constant is replaced by that variable\'s new name - a constant turns into a re-entrancy')
+                                continue
                             shape_ok = False
                             if len(parts) == 1 and isinstance(parts[0], ast.Subscript) and norm(parts[0].slice) == l_tgt:
                                 shape_ok = True          # plain lookup of the whole atom (R11 judges the key)
